@@ -99,6 +99,17 @@ def Sh.hasSafe : Sh → Bool
   | .seq a b => a.hasSafe || b.hasSafe
   | _ => false
 
+/-- unbounded recursion through catch somewhere in the shape: the number of error deliveries then depends on how many frames
+    the nodes around it really take (nominal in the model) -/
+def Sh.hasCrecur : Sh → Bool
+  | .crecur => true
+  | .call _ b => b.hasCrecur
+  | .catch_ b => b.hasCrecur
+  | .cb _ b => b.hasCrecur
+  | .safe b => b.hasCrecur
+  | .seq a b => a.hasCrecur || b.hasCrecur
+  | _ => false
+
 /-- number of catch frames an error can pass on its way out (for the handler allowance of the oracle) -/
 def Sh.catchDepth : Sh → Nat
   | .catch_ b => b.catchDepth + 1
@@ -295,13 +306,22 @@ def runEv (p : Parsed) : List String :=
     | .ok => "r ret 0"
     | .raised _ => s!"r err es={s.es}"
     | .fuel => "timeout"
-  evs ++ [last]
+  -- error deliveries (entries of mudlib_error_handler), compared with the count the harness takes through verif_error_hook
+  -- (not for programs with safe applies: their real frames - master::object_name, call_other - are not the model's)
+  evs ++ [last] ++ (if p.shape.hasSafe || p.shape.hasCrecur then [] else [s!"handlers {s.raises}"])
 
 def parseLine (mode : Bool) (p : Parsed) (line : String) : Parsed :=
   match toks line with
   | [] => p
   | "load" :: _ => p
   | "lpc" :: _ => p
+  | ["conf", v] =>
+    -- configuration / master variant of the run: the limits machine does not depend on it (Handler.lean); the oracle's allowance
+    -- for the driver's own trace does (values per frame: arguments, local variables)
+    let n := (if (v.splitOn "args").length > 1 || (v.splitOn "both").length > 1 then 1 else 0) +
+             (if (v.splitOn "locals").length > 1 || (v.splitOn "both").length > 1 then 1 else 0)
+    { p with lim := { p.lim with traceValues := n } }
+  | "conf" :: _ => p
   | ["cfgint", i, v] =>
     match i.toNat?, v.toInt? with
     | some i, some v => { p with lim := setCfgInt p.lim i v }
@@ -332,11 +352,23 @@ def parseLine (mode : Bool) (p : Parsed) (line : String) : Parsed :=
       let c := clampCost (toInt32 v)
       { p with lim := { p.lim with cost := c }, out := if mode then s!"r ret {c}" :: p.out else p.out }
     | none => { p with bad := line :: p.bad }
+  | ["ev", "sizes", "rx", n] =>
+    -- one regexp match whose backtracking is exponential in n: charged against the budget (Sizes.regexCharge); the generator
+    -- only uses n far below and far above the threshold
+    match n.toNat? with
+    | some n =>
+      (match rxExpires n p.lim.cost with
+       | some true => { p with out := if mode then "r err es=2" :: p.out else p.out,
+                                 lim := { p.lim with rxMustExpire := true } }
+       | some false => { p with out := if mode then "r ret 0" :: p.out else p.out }
+       | none => { p with bad := line :: p.bad })
+    | none => { p with bad := line :: p.bad }
   | ["mset", "set_handler_catches", v] => { p with lim := { p.lim with handlerCatches := v != "0" } }
   | ["shape", t] =>
     match parseShape t with
     | some sh =>
-      let lim := { p.lim with hasSafe := sh.hasSafe, catchDepth := sh.catchDepth, noCodeCallbacks := noCodeOf t }
+      let lim := { p.lim with hasSafe := sh.hasSafe, catchDepth := sh.catchDepth, noCodeCallbacks := noCodeOf t,
+                              safeWeight := sh.safeWeight }
       { p with shape := sh, lim := lim }
     | none => { p with bad := line :: p.bad }
   | ["ev", _, _] => if mode then { p with out := (runEv p).reverse ++ p.out } else p
